@@ -41,8 +41,7 @@ def run_unit(unit_name, defines=(), canary=None, seed=0, rlimit=None, tag='main'
         return res
     res['meta'] = meta
     cmd = ['verus', '--edition', '2024', opath, '--multiple-errors', '100' if canary else '20', '--output-json', '--time', '--error-format=json']
-    if rlimit:
-        cmd += ['--rlimit', str(rlimit)]
+    cmd += ['--rlimit', str(rlimit or 40)]
     if seed:
         cmd += ['--smt-option', 'smt.random_seed=%d' % (seed % 1000000), '--smt-option', 'sat.random_seed=%d' % (seed % 1000000)]
     res['cmd'] = ' '.join(cmd)
@@ -85,7 +84,10 @@ def run_unit(unit_name, defines=(), canary=None, seed=0, rlimit=None, tag='main'
                 kind = k
                 break
         if 'rlimit' in msg.lower() or 'resource limit' in msg.lower():
-            hard.append('rlimit: ' + msg)
+            # in a canary run only the rejection of the canaries matters: after an injected `assert(false)`
+            # the rest of the function is checked under a false assumption and may wander
+            if not canary:
+                hard.append('rlimit: ' + msg)
             continue
         if kind is None:
             hard.append(msg + ' @ ' + ','.join('%s:%s' % (s['file_name'], s['line_start']) for s in d.get('spans', [])[:2]))
